@@ -72,6 +72,8 @@ fn random_scenario(seed: u64, run: u64) -> (Scenario, Vec<Abs>) {
                     // a 103 before the final response, in its own segment or in one segment with the final head
                     let how = if rng.random_bool(0.5) { "sep" } else { "same" };
                     spec.interim = how.into(); a.interim = how.into();
+                    // (framed, kept-alive responses only: see ScenarioSet in HttpExchange.tla)
+                    if spec.framing == "close" { spec.framing = "cl".into(); a.framing = "cl".into(); }
                 }
                 "goaway" => {
                     // graceful GOAWAY(NO_ERROR) of the h2c backend: before HEADERS, between HEADERS and DATA, after the answer
